@@ -53,7 +53,8 @@ type Provider struct {
 
 	// CreateOutcomes is consumed front-first: "ok" | "ICE" | "NCNR" | "err" | "createErr". Empty = ok.
 	CreateOutcomes []string
-	// DeleteOutcomes / GetOutcomes / ListOutcomes: "ok" (default semantics) | "err".
+	// DeleteOutcomes / GetOutcomes / ListOutcomes: "ok" (default semantics) | "err"; ListOutcomes also "notfound" |
+	// "notfoundWrapped" (the call fails with a NodeClaimNotFoundError-typed error).
 	DeleteOutcomes []string
 	GetOutcomes    []string
 	ListOutcomes   []string
@@ -247,9 +248,16 @@ func (p *Provider) Get(ctx context.Context, id string) (*v1.NodeClaim, error) {
 func (p *Provider) List(ctx context.Context) ([]*v1.NodeClaim, error) {
 	p.mu.Lock()
 	defer p.mu.Unlock()
-	if pop(&p.ListOutcomes) == "err" {
+	switch pop(&p.ListOutcomes) {
+	case "err":
 		p.emit(ctx, "List", "", "", "Error", "")
 		return nil, fmt.Errorf("injected provider list error")
+	case "notfound": // a failed List whose error is NotFound-typed (the call failed; nothing was listed)
+		p.emit(ctx, "List", "", "", "NotFound", "")
+		return nil, cloudprovider.NewNodeClaimNotFoundError(fmt.Errorf("injected: instance vanished while listing"))
+	case "notfoundWrapped":
+		p.emit(ctx, "List", "", "", "NotFound", "")
+		return nil, fmt.Errorf("listing instances, %w", cloudprovider.NewNodeClaimNotFoundError(fmt.Errorf("injected: instance vanished while listing")))
 	}
 	var out []*v1.NodeClaim
 	ids := lo.Keys(p.Instances)
